@@ -29,6 +29,8 @@ Dropped(f, cls) ==
     [] cls = "a_write" -> [f EXCEPT !.aw = {}]
     [] OTHER -> f
 GuardFP(c) == Dropped(DeclaredFP(Prog[c[1]], c[2], c[3]), Omit[c[1]])
+\* what the scheduler sees: the declaration plus the descent-chain reads added by apply_in_warp
+SchedFP(c, s) == WithDescent(GuardFP(c), s, c[2])
 
 \* reads the executor performs, in order (harness/src/programs.rs performs them unconditionally
 \* and in exactly this order): <<"node"|"adj"|"natt"|"edge"|"eatt", id>>
